@@ -1,19 +1,34 @@
 (* C06 - answers do not depend on encoding, SAT backend, certificate flag or query order.
    Statements only; proofs are [exact].
-   PROVED so far, at the level of the model, for every compact component of any size:
-     - the complete solver's credulous query gives the same status for any two complete-semantics
-       encoders (aux_var, exp, hybrid with any thresholds), any two correct SAT backends (any two
-       valid oracles) and both certificate flags;
-     - the stable solver's component step gives the same verdict for any two correct backends.
+   PROVED, at the level of the model:
+     - C06_status_function_of_semantics: for EVERY acceptance entry point of [run_query] (all
+       solver types), any two completed runs on the same framework, kind of query and argument
+       list return the SAME status, whatever the two SAT backends (any two valid oracles), the
+       two encoders (any two admissible ones, with any thresholds >= 1), the two certificate
+       flags, the two fuels, the two views of the framework and the two start states (i.e.
+       whatever was asked before): the status is a function of the semantics.
+     - C06_*_independent_partial (kept): the per-component forms for CO and ST.
    By construction of the model: a solver object carries no state from one query to the next
    (every query of Model.Solvers opens fresh sessions and the hybrid encoder's table is local to one
    encoding) and a query takes the framework as an immutable value; whether the REAL objects and
    encoders behave like that is exactly what the tie checks on every run (sequences of queries with
    repetitions on one object vs fresh objects, one encoder object reused across encodings).
-   NOT YET PROVED: the same independence for the PR / SST / STG / ID loops (it follows from C02 /
-   C03 at full strength, which are not yet theorems for those). *)
+   Not claimed: equality of the returned EXTENSIONS / certificates (different backends may pick
+   different ones; each is correct by C01 / C04).
+   Vocabulary of the whole-framework theorems (Proofs/TopBase.v, TopMax.v, SolverTop.v):
+     view_good g F   the view g (iteration orders of an AAFramework) presents the framework F;
+                     instances: view_of_af of any compact framework, view_of_fw of any store
+                     reachable from new_with_labels by any update history (C01_good_view_compact, C01_good_view_store);
+     supported s q   the trait implementation exists (all but CO-SE, CO-DS, PR-DC, for which the
+                     library delegates to another solver type and the model has no entry point);
+     enc_ok s e      the encoder may be used with the solver type (CO, SST: complete-based; STG:
+                     conflict-free based; PR, ID: complete- or admissible-based; GR, ST: any);
+     al_ok s q F al  nothing for SE queries and for GR / ST; otherwise the listed ids are arguments
+                     of F (the list may be empty and may contain repetitions).
+*)
 From Crusta Require Import Spec.AF Sat.Cnf Sat.Prog Model.Encoders Model.Graph Model.Solvers.
 From Crusta Require Import Proofs.EncSpec Proofs.SolverBasics Proofs.ConfigIndep.
+From Crusta Require Import Proofs.TopBase Proofs.TopMax Proofs.SolverTop.
 Open Scope prog_scope.
 
 Theorem C06_complete_query_config_independent_partial :
@@ -37,5 +52,16 @@ Theorem C06_stable_component_backend_independent_partial :
   st_verdict r1 = st_verdict r2.
 Proof. exact ConfigIndep.stable_component_backend_independent. Qed.
 
+Theorem C06_status_function_of_semantics :
+  forall o1 o2 thr1 thr2 g1 g2 F s q e1 e2 al fuel1 fuel2 cert1 cert2 st1 st2 b1 c1 t1 b2 c2 t2,
+  valid_oracle o1 -> valid_oracle o2 -> 1 <= thr1 -> 1 <= thr2 ->
+  view_good g1 F -> view_good g2 F ->
+  q <> QSE -> supported s q -> enc_ok s e1 -> enc_ok s e2 -> al_ok s q F al ->
+  run_query o1 thr1 fuel1 s q cert1 e1 g1 al st1 = Done (OAcc b1 c1) t1 ->
+  run_query o2 thr2 fuel2 s q cert2 e2 g2 al st2 = Done (OAcc b2 c2) t2 ->
+  b1 = b2.
+Proof. exact SolverTop.top_status_function_of_semantics. Qed.
+
 Print Assumptions C06_complete_query_config_independent_partial.
 Print Assumptions C06_stable_component_backend_independent_partial.
+Print Assumptions C06_status_function_of_semantics.
